@@ -296,6 +296,28 @@ func runC19(t *testing.T, rec *vrec, sc *c11Scenario, rng *vrng, q int) {
 			}
 		}
 	}
+	// out-of-band frames cut short inside their conversation id (8..11 bytes after
+	// decryption), to the listener from a known and an unknown address and to a
+	// dialled session: not intact, so they must simply vanish
+	if len(peers) > 0 {
+		sl := newSealer(cipherByName(w.link.Cipher), w.key)
+		tr := newRng(uint64(sc.Case), 79)
+		for k := 0; k < 4; k++ {
+			p := peers[tr.intn(len(peers))]
+			frame := make([]byte, 8, 12)
+			binary.LittleEndian.PutUint32(frame, tr.u32())
+			binary.LittleEndian.PutUint16(frame[4:], typeOOB)
+			binary.LittleEndian.PutUint16(frame[6:], uint16(2+k))
+			var conv [4]byte
+			binary.LittleEndian.PutUint32(conv[:], p.conv)
+			frame = append(frame, conv[:k]...)
+			w.hub.inject(p.addr, w.laddr.String(), sl.seal(tr, frame))
+			w.hub.inject(w.addr(byte(180+k), 7700+k), w.laddr.String(), sl.seal(tr, frame))
+			w.hub.inject(w.laddr, p.addr.String(), sl.seal(tr, frame))
+			rec.count("truncated_oob_frames_injected", 3)
+		}
+		time.Sleep(5 * time.Millisecond)
+	}
 	// reconnect from the same address with a new conversation whose first
 	// packets are out-of-band: they must not reach the old session's handler
 	if len(peers) > 0 && sc.Net.DelayMax <= 500 {
